@@ -325,19 +325,23 @@ PROGRAMS_DIR = {
     "two_dirs_two_objects": [(0, 0), (1, 1), (1, 0)],
     "back_and_forth": [(0, 0), (0, 1), (0, 0), (1, 1)],
     "three_dirs": [(0, 0), (1, 1), (0, 2), (1, 0)],
+    # explicit tags mixed with automatic ones (automatic = last tag + 1, as documented by the code's behaviour)
+    "explicit_tag": [(0, 0), (1, 0, 3), (0, 0), (1, 0)],
+    "explicit_tags_two_dirs": [(0, 0, 5), (1, 1), (1, 0), (0, 1, 4), (0, 1)],
 }
 
 
 @harness("C18", "directory_saving",
-         quick=[dict(prog=p) for p in ("one_dir", "two_dirs", "two_dirs_two_objects")],
+         quick=[dict(prog=p) for p in ("one_dir", "two_dirs", "two_dirs_two_objects", "explicit_tag")],
          thorough=[dict(prog=p) for p in PROGRAMS_DIR],
          functions=[F_S + ":Saveable.savedir", F_S + ":Saveable.loaddir", F_S + ":Saveable.save", F_P + ":Parcel.save",
                     F_P + ":load_parcel"],
          bound="histories of up to 4 savedir() calls of two operators (symbolic data, changed between saves) into up "
                "to 3 fresh directories of the real file system, then loaddir() of every directory: it returns exactly "
-               "the objects saved there, under the tags 1..k in saving order, with the data they had when saved; "
+               "the objects saved there, under the tags 1..k in saving order (explicit tags mixed in: automatic tag = last tag + 1), with "
+               "the data they had when saved; "
                "pickling is the deep-copy stub (replay: the real dill)",
-         out="explicit tags; unitedir")
+         out="unitedir; re-use of an explicit tag (overwrites by design)")
 def directory_saving(cx, prog):
     import quantarhei as qr
     steps = PROGRAMS_DIR[prog]
@@ -351,13 +355,18 @@ def directory_saving(cx, prog):
     want = {}
     try:
         with pickle_as_deepcopy(cx):
-            for n, (oi, di) in enumerate(steps):
+            for n, step in enumerate(steps):
+                oi, di = step[0], step[1]
+                tag = step[2] if len(step) > 2 else None
                 d = os.path.join(base, "dir%d" % di)
                 # the object's content changes between saves, so that a stale copy is visible
                 objs[oi]._data = objs[oi]._data + (n + 1)
-                want.setdefault(di, []).append(objs[oi]._data.copy())
+                have = want.setdefault(di, [])
+                if tag is None:
+                    tag = (have[-1][0] + 1) if have else 1
+                have.append((tag, objs[oi]._data.copy()))
                 try:
-                    objs[oi].savedir(d)
+                    objs[oi].savedir(d, tag=step[2]) if len(step) > 2 else objs[oi].savedir(d)
                 except Exception as e:      # noqa: BLE001
                     cx.fail("savedir_step_%d" % n, "%s: %s" % (type(e).__name__, str(e)[:120]))
                     return
@@ -368,11 +377,12 @@ def directory_saving(cx, prog):
                 except Exception as e:      # noqa: BLE001
                     cx.fail("loaddir_%d" % di, "%s: %s" % (type(e).__name__, str(e)[:120]))
                     continue
-                cx.prove("loaddir_%d_tags" % di, list(got.keys()) == list(range(1, len(datas) + 1)))
-                if list(got.keys()) != list(range(1, len(datas) + 1)):
+                tags = [t for t, _ in datas]
+                cx.prove("loaddir_%d_tags" % di, list(got.keys()) == tags)
+                if list(got.keys()) != tags:
                     continue
-                for k, ref in enumerate(datas):
-                    cx.prove_eq("loaddir_%d_object_%d" % (di, k + 1), got[k + 1]._data, ref, tol=1e-12)
+                for t, ref in datas:
+                    cx.prove_eq("loaddir_%d_object_%d" % (di, t), got[t]._data, ref, tol=1e-12)
     finally:
         import shutil
         shutil.rmtree(base, ignore_errors=True)
